@@ -158,7 +158,7 @@
   "run compiled program f once; -> outcome text"
   [f argsf]
   (array/clear log)
-  (put (in (in penv 'X) :ref) 0 9)
+  (put (in (in penv 'X) :ref) 0 5)
   (def args (argsf))
   (def fb (fiber/new (fn [&] (f ;args)) :a))
   (def b @"")
